@@ -25,9 +25,9 @@ CHECKS = {
              "in messages. Tie: per-run comparison of the whole ordered error list of the real validators with the "
              "model, plus a direct oracle on the implementation (path resolution, fact, message text).",
         note=COMMON_NOTE + "Message wording is not modelled, only which path is printed (checked by the oracle on "
-             "the real Formatter). Float facts use Coq's FloatAxioms (mul_spec, eqb_spec, SF2Prim_Prim2SF). Open known "
-             "finding F35 (an error below a dict key that hashes by identity holds a copy of the key; outside the "
-             "model's value universe, reproduced by a direct probe).",
+             "the real Formatter). Float facts use Coq's FloatAxioms (mul_spec, eqb_spec, SF2Prim_Prim2SF). No open "
+             "known finding; F35 (an error below a dict key that hashes by identity held a copy of the key; outside the "
+             "model's value universe, checked by a direct probe) repaired by a fix: commit.",
         technique="Coq proof (Forall-invariant by nested induction) + vm_compute correspondence + direct oracle",
         design="6 C03"),
     "C08": dict(
@@ -37,7 +37,8 @@ CHECKS = {
              "every position, exhaustive leaf-schema x zoo grid; raises/returns and error counts compared with the "
              "model; oracle: no exception, non-empty messages, validate_or_fail/format_result vs error list.",
         note=COMMON_NOTE + "Objects whose own special methods raise are excluded, as the property says. Formatter "
-             "wording not modelled (non-emptiness checked on the real Formatter). F03, F28, F34 repaired by fix: commits.",
+             "wording not modelled (non-emptiness checked on the real Formatter). F03, F28, F34, F35 (keys that cannot be deep-copied), F40 (paths holding a "
+             "key repr() cannot print) repaired by fix: commits; probe of unusual keys DECLARED by the schema.",
         technique="Coq proof (partial-vs-total validator agreement) + vm_compute correspondence + direct oracle",
         design="6 C08"),
     "C14": dict(
@@ -98,7 +99,7 @@ CHECKS = {
              "sat_alone_is_not_preserved shows the hypothesis cannot be plain sat). hsatb is evaluated inside Coq for the "
              "schema of every plain case of a run; where it holds the usability oracle on /repo accepts no excuse.",
         note=COMMON_NOTE + "No open known finding. F08, F09, F10 (NaN), F11, F22, F28, F31 (a '...' member of "
-             "an untyped dict), F38 (the substitutor's own messages for values repr() cannot print) were repaired by fix: commits.",
+             "an untyped dict), F38 (the substitutor's own messages for values repr() cannot print), F40 (paths holding such a key) were repaired by fix: commits.",
         technique="Coq proof (outcome-class invariant + fixpoint lemma by nested induction over schemas and values) + vm_compute correspondence + direct oracle",
         design="6 C12"),
     "C18": dict(
@@ -184,7 +185,8 @@ CHECKS = {
              "validate(result, value), re-declaration rejected.",
         note=COMMON_NOTE + "Python arity errors (TypeError) are outside the property (arity_ok). F10 (NaN), "
              "F12, F13, F32 (deeply nested pattern: RecursionError), F39 (DeclarationError messages for ints beyond the "
-             "int->str digit limit; probe of chains with unprintable arguments) repaired by fix: commits.",
+             "int->str digit limit; probe of chains with unprintable arguments), F41 (incompatible inline regex flags: "
+             "ValueError) repaired by fix: commits.",
         technique="Coq proof (guard-ladder case analysis + invariant preservation) + vm_compute correspondence over enumerated chains + direct oracle",
         design="6 C10"),
     "C11": dict(
